@@ -71,7 +71,7 @@ def encode_traces(facts):
             for e in pn[1:]:
                 env[e] = ('opaque',)
             env[pn[-1]] = ('<default prefix>', '<default suffix>')
-            it.val(b['body'], env)
+            it.run_body(b, env)
             out[('array', n, tc)] = [(nm,) + keep(args) for nm, args in it.calls]
     b = facts.body('toml_edit::encode::encode_table')
     pn = [p['name'] for p in b['params'] if p.get('k') == 'p_bind']
@@ -83,7 +83,7 @@ def encode_traces(facts):
         for e in pn[1:]:
             env[e] = ('opaque',)
         env[pn[-1]] = ('<default prefix>', '<default suffix>')
-        it.val(b['body'], env)
+        it.run_body(b, env)
         out[('table', n)] = [(nm,) + keep(args) for nm, args in it.calls]
     # encode_formatted / encode_key: the explicit representation when there is one, else the default one; encoded against the source text when
     # there is one, else displayed; for a value between its decor
@@ -119,7 +119,7 @@ def encode_traces(facts):
                 if fn == 'encode_formatted':
                     env[pn[-1]] = ('<default prefix>', '<default suffix>')
                 it.file = b.get('file')
-                it.val(b['body'], env)
+                it.run_body(b, env)
                 evs = []
                 for nm, recv, args in it.trace:
                     if nm == 'encode':
@@ -139,7 +139,7 @@ def encode_traces(facts):
             for e in pn[1:]:
                 env[e] = ('opaque',)
             env[pn[-1]] = ('<default prefix>', '<default suffix>')
-            it.val(b['body'], env)
+            it.run_body(b, env)
             evs = []
             for nm, recv, args in it.trace:
                 if nm == 'encode_key':
